@@ -1942,9 +1942,23 @@ pub(crate) mod convert {
             deps: &mut Vec<UnitSectionOffset>,
             offset: LocationListsOffset,
         ) -> ConvertResult<()> {
-            let mut locations = self.read_unit.locations(offset)?;
+            // Use the raw entries, because the conversion also converts the expressions
+            // of entries that `LocListIter` skips (empty, invalid or tombstoned ranges).
+            let mut locations = self.read_unit.raw_locations(offset)?;
             while let Some(location) = locations.next()? {
-                self.add_expression_refs(deps, location.data)?;
+                match location {
+                    read::RawLocListEntry::BaseAddress { .. }
+                    | read::RawLocListEntry::BaseAddressx { .. } => {}
+                    read::RawLocListEntry::AddressOrOffsetPair { data, .. }
+                    | read::RawLocListEntry::StartxEndx { data, .. }
+                    | read::RawLocListEntry::StartxLength { data, .. }
+                    | read::RawLocListEntry::OffsetPair { data, .. }
+                    | read::RawLocListEntry::DefaultLocation { data }
+                    | read::RawLocListEntry::StartEnd { data, .. }
+                    | read::RawLocListEntry::StartLength { data, .. } => {
+                        self.add_expression_refs(deps, data)?;
+                    }
+                }
             }
             Ok(())
         }
@@ -1985,11 +1999,19 @@ pub(crate) mod convert {
                     read::Operation::Call {
                         offset: read::DieReference::DebugInfoRef(ref_offset),
                         ..
-                    } => {
+                    }
+                    | read::Operation::ImplicitPointer {
+                        value: ref_offset, ..
+                    }
+                    | read::Operation::VariableValue { offset: ref_offset } => {
                         let offset = ref_offset
                             .to_unit_section_offset(&self.read_unit)
                             .ok_or(ConvertError::InvalidDebugInfoRef)?;
                         deps.push(offset);
+                    }
+                    read::Operation::EntryValue { expression } => {
+                        // The nested expression is converted too.
+                        self.add_expression_refs(deps, read::Expression(expression))?;
                     }
                     _ => {}
                 }
